@@ -265,6 +265,11 @@ pub fn examine_program(text: &str, origin: &str, seed: u64, report: &mut Report)
                 let mut have = BTreeSet::new();
                 for (pname, is_ref, _) in &info[user_params..] {
                     if let Some(pn) = pname {
+                        // the lane index / lane count of the wave intrinsics travel the same way, by value, under names of the exporter's own
+                        if !is_ref && matches!(pn.as_str(), "thread_index_in_simdgroup" | "threads_per_simdgroup") {
+                            report.count("structure:implicit-wave-parameter");
+                            continue;
+                        }
                         have.insert(pn.clone());
                         if !is_ref {
                             report.violation(
